@@ -29,7 +29,7 @@ func init() {
 		Rule: "cases: (type, value): named types (value and pointer embedding, nested named types, same short name in two packages) and random reflect.StructOf types (anonymous: all share the type name \"\") with scalar, named scalar, pointer, slice, array, map[string], interface (holding nil, int64, float64, string, bool, []any, map[string]any or a pointer to a registered struct or, for named targets, to a struct type the target mentions in its fields - FirstPtr and FirstEmb mention it only through their first field), []byte and nested struct fields, tags name/omitempty/string/-; values zero, full and random. " +
 			"round trips: alt.Recompose(alt.Decompose(v, {CreateKey}), &T{}) on a fresh Recomposer and on one whose Leaf values are built by a registered compose function; oj.Unmarshal(oj.Marshal(v)); sen.Unmarshal(sen.Bytes(v)); the result must equal v (nil == empty slices/maps, numbers by value, fields tagged \"-\" zero). " +
 			"histories: the same (type, data) is recomposed on a fresh Recomposer, on one Recomposer shared by every case of the process (types arrive in a seed-dependent order, different in every batch process), and on the process-wide alt.DefaultRecomposer; plus every permutation of collision sets of up to 4 types (same short name in two packages, several anonymous struct types, a named and an anonymous type with the same fields in another order) on a fresh Recomposer per permutation: the outcome (error flag and value) must be the one of the empty history. " +
-			"the collision sets include two types that embed, by value, structs of another package whose short names collide with types of this package. non-trivial: a struct with at least two fields or one nested container; distinct by digest of (type, value)",
+			"the collision sets include two types that embed, by value, structs of another package whose short names collide with types of this package. named types include short all-capital field names with differing tags, two levels of embedded pointers, named bool and int64 scalars. non-trivial: a struct with at least two fields or one nested container; distinct by digest of (type, value)",
 		Assumptions: []string{
 			"interface-typed fields hold pointers to registered struct types (a create key is set) or JSON-like data; an integer inside an interface comes back as int64 (Recompose) or float64 (Unmarshal parses with ForceFloat) and is compared by value",
 			"float32 fields hold values exactly representable in float32; time.Time, non-string map keys, pointers to pointers and key conflicts are not generated",
@@ -143,7 +143,32 @@ type Accent struct {
 	Plain string
 }
 
+// ShortTagged has short all-capital field names with tags that differ from the lower-cased names (the
+// decomposer lower-cases names of up to three letters entirely when no tag option is set).
+type ShortTagged struct {
+	ID  int    `json:"_id"`
+	URL string `json:"link"`
+	TTL int    `json:"ttl_s,omitempty"`
+	Ab  string
+	Xyz []int `json:"points"`
+}
+
+// DeepEmb embeds a pointer to a struct that embeds a pointer to a struct: either pointer may be nil.
+type DeepInner struct {
+	DiNum  int
+	DiName string
+}
+type DeepMid struct {
+	*DeepInner
+	DmFlag bool
+}
+type DeepEmb struct {
+	*DeepMid
+	DeCount int
+}
+
 var namedTypes = []reflect.Type{
+	reflect.TypeOf(ShortTagged{}), reflect.TypeOf(DeepEmb{}),
 	reflect.TypeOf(EmbCount{}), reflect.TypeOf(Outer{}), reflect.TypeOf(Accent{}), reflect.TypeOf(FirstPtr{}), reflect.TypeOf(FirstEmb{}),
 	reflect.TypeOf(Leaf{}), reflect.TypeOf(Base{}), reflect.TypeOf(Mid{}), reflect.TypeOf(PBase{}), reflect.TypeOf(Rec{}), reflect.TypeOf(Pair{}), reflect.TypeOf(Holder{}),
 	reflect.TypeOf(other.Rec{}), reflect.TypeOf(other.Pair{}), reflect.TypeOf(other.Box{}),
